@@ -408,7 +408,8 @@ def _family(target):
 def reloc_deltas(unit):
     out = {0, unit, -unit, 2 * unit, -2 * unit}
     for k in range(3, 41):
-        for d in (-unit, 0, unit):
+        # neighbours of the field edge, also as seen through the pc bias of the instruction set (S - (P + 4), S - (P + 8), ...)
+        for d in {-unit, 0, unit, -2 * unit, 2 * unit, 4, 8, 12, -4, -8, -12, 1, -1, 2, -2}:
             out.add((1 << k) + d)
             out.add(-(1 << k) + d)
     return sorted(v for v in out if v % unit == 0)
